@@ -353,6 +353,11 @@ VertexHandle TetrahedralMeshTopologyKernel::collapse_edge(HalfEdgeHandle _heh)
 
     std::vector<std::pair<CellHandle, std::vector<HalfFaceHandle>>> new_cells;
 
+    // Deletion is deferred here, so indices are stable: edges and faces from
+    // these indices on are created by this collapse.
+    const size_t first_new_edge = n_edges();
+    const size_t first_new_face = n_faces();
+
     for (const CellHandle &ch: incidentCells)
     {
         if (collapsingCells.find(ch) != collapsingCells.end())
@@ -376,12 +381,17 @@ VertexHandle TetrahedralMeshTopologyKernel::collapse_edge(HalfEdgeHandle _heh)
 
                 HalfEdgeHandle heh = add_halfedge(newStart, newEnd);
                 newHalfedges.push_back(heh);
-                swap_property_elements(hf.halfedges()[j], heh);
+                // A halfedge created here takes over the values of the one it
+                // replaces; a halfedge that existed before belongs to a
+                // surviving edge and keeps its own values.
+                if (heh.edge_handle().uidx() >= first_new_edge)
+                    copy_property_elements(hf.halfedges()[j], heh);
             }
 
             HalfFaceHandle hfh = add_halfface(newHalfedges);
             newHalffaces.push_back(hfh);
-            swap_property_elements(c.halffaces()[hf_idx], hfh);
+            if (hfh.face_handle().uidx() >= first_new_face)
+                copy_property_elements(c.halffaces()[hf_idx], hfh);
         }
 
         delete_cell(ch);
